@@ -536,8 +536,8 @@ class Aggregate(list):
     def __getattr__(self, attr: str):
         """Proxy access to attributes of SubAggregates"""
         for subaggregate in self.subaggregates:
-            subagg = getattr(self, subaggregate)
             try:
+                subagg = getattr(self, subaggregate)
                 return getattr(subagg, attr)
             except (AttributeError, KeyError):
                 continue
